@@ -584,16 +584,24 @@ for _n, _f in (("builtins.open", "open_file"), ("os.path.exists", "path_exists")
     external(_n, "D2: ghost file system (pyvc/files.py)")(_files(_f))
 
 
-@external("os.urandom", "A1: fresh random bytes of the requested length")
+from .registry import ghost_var as _ghost_var, specfn as _specfn, axiom as _axiom
+_ghost_var("rng_n", TInt, monotone=True)
+draw = _specfn("draw", [TInt], TBytes, py=None, doc="A1: the k-th value handed out by the operating system's random source")
+_i, _j = z3.Ints("i j")
+_axiom("A1_fresh", [_i, _j], z3.Implies(z3.And(_i != _j, z3.Length(draw(_i)) >= 16, z3.Length(draw(_j)) >= 16), draw(_i) != draw(_j)),
+       patterns=[z3.MultiPattern(draw(_i), draw(_j))],
+       note="A1: two different draws of at least 16 random bytes differ (fails with probability 2^-128 per pair)")
+
+
+@external("os.urandom", "A1: the next value of the random tape, of the requested length (ghost position rng_n advances by one)")
 def _urandom(E, a, kw, fr, node):
     n = a[0]
     nt = z3_int(n)
     E.may_raise("ValueError", nt < 0, _line(node), "negative argument not allowed")
-    ctr = E.ghost.get("rng", 0)
-    E.ghost["rng"] = ctr + 1
-    r = E.fresh("urandom%d" % ctr, TBytes)
+    pos = E.ghostv["rng_n"]
+    r = SV(draw(pos.t), TBytes)
     E.assume(z3.Length(r.t) == nt)
-    E.ghost.setdefault("rng_draws", []).append(r)
+    E.ghostv["rng_n"] = SV(pos.t + 1, TInt)
     return r
 
 
